@@ -11,6 +11,7 @@ CHECK = {
         "a timeout error that arrives earlier than the configured period is recorded as an outcome, not a violation ('within the configured period')",
         "timed family: chunk i becomes available a delay from {0, timeout/3, timeout-1ms} after the Read that first asks for it (virtual time); the configured period is counted from the start of the CALL of ReadDelimitedMessage during which the peer stalls; a peer that is merely slower than the period (a chunk arrives after it) is unconstrained except that a timeout error must not come late; a call whose bytes all arrive in less than the period must deliver its message",
         "cross family (ReadDelimitedMessage, several streams in one process): histories of 2-3 scripted peers, each with its own reader, read one after the other; a peer delivers its whole frame (every letter; every composition for the two-stream shape, <=2 chunks + all-1-byte in three-stream shapes) or a proper prefix (every cut, one chunk) and then stalls into the timeout; the Read in which the abandoned reader goroutine of a timed-out call is blocked is answered LATER - with the rest of the frame or with 0xEE bytes - before a chosen chunk of a later call (or while a later peer is stalled, or after the last call); shapes stall,done / done,stall / stall,stall / stall,done,done / stall,stall,done (quick: cuts 0, 2, 4, last and junk only for the last shape); plus two healthy peers read at the same time on two goroutines with every interleaving of their chunk arrivals (<=2 chunks each, thorough <=3); runs with GOMAXPROCS(1) and the collector off so that a free list hands an object straight to the next call; longer histories, more than one late delivery per stalled peer and re-reading a stream after its timeout are outside the bound",
+        "big family (ReadDelimitedMessage with an 8 MiB limit and both StreamDecoders): streams f,B,f (thorough: B,f and f,B,f,f) where B is ONE message of size 2^k-1 / 2^k+1 (thorough also 2^k; quick stops at 2^21-1) for k=10..21 - serialized size for the binary framing, length of the JSON text for the JSON variant (compact hand-written JSON and the real encoder; thorough also concatenated without separator) - and f a small message whose strings hold blanks, runs of blanks, escaped tab/newline and raw U+0085/U+00A0/U+2028/U+3000 at start, middle and end; partitions are NOT all compositions: lump [E+c, rest] and (k<=16, thorough k<=18) tail [E-7, 7+c, rest], cut [E+c]+EOF (thorough also EOF with the last data) for E = end of B and every c in 0..64 (thorough 0..160), plus one piece and fixed reads of 4093 / 65537 bytes; a Read answer is min(len(p), rest of the chunk), so where exactly a reader's own buffer ends inside a chunk is up to the reader; more than one large message per stream and large messages with other field shapes (bytes payloads, many small fields) are outside the bound",
         "unit c09-peers: the peers are driven in-process through the exported Run / RunInReferenceMode with a scripted stdin; client requests name no HTTP version, so each is answered with an error result without any network (the answer path itself is C19/C13 territory); the client part runs inside synctest bubbles ('everything the client can do while stdin stays open' = all goroutines durably blocked); the server part listens on loopback port 0, plain HTTP/1.1, and uses a 60 s wall-clock guard only to turn a hang into a report",
         "failing writers: the k-th Write fails with (0,err) or (len/2,err) and the writer stays broken; an encoder may ignore a failure only if the accepted bytes already contain the whole message (JSON encoder's best-effort trailing newline)",
         "testing/synctest virtual time: the 7 s timeout elapses only when every goroutine of the bubble is durably blocked, so there is no wall-clock oracle",
@@ -18,14 +19,14 @@ CHECK = {
     "manifest": {
         "engine": "ENUM",
         "technique": "bounded-exhaustive enumeration of read partitions, cut points, faults and stall points against a whole-buffer reference parser (virtual time via testing/synctest)",
-        "text": "For every sequence of 1-3 small messages written by the real writers (WriteDelimitedMessage, binary and JSON stream encoders; plus hand-written compact JSON), every number of delivered bytes, every composition of those bytes into Read answers (complete up to the stated length, <=3 chunks + all-1-byte beyond) and every ending (EOF, EOF together with the last data, I/O error, I/O error with the last data, stall) is fed to ReadDelimitedMessage and to both StreamDecoders; the results are compared with a reference parser of the whole buffer: same messages in order, io.EOF at a boundary, unexpected-end class error inside a prefix/body (JSON: any non-EOF error), never a message that was not completely delivered; stall => timeout error not later than the virtual timeout carrying the scripted k/n counts; prefixes declaring limit (accepted), limit+1, 2^16, 64 MiB, 2^31-1, 2^31, 2^32-1 against limits 0/2/5/1024 under all 8 prefix chunkings => rejected without a body-sized buffer (largest Read buffer after the prefix, TotalAlloc delta); writers failing at every Write index must report the failure unless the message is already completely accepted. Timed family (ReadDelimitedMessage): streams of one message (all letters) and two (sizes 0/2/5, thorough all), every number of delivered bytes, every composition of up to 7 (thorough 9) delivered bytes (beyond: <=3 chunks + all-1-byte), every assignment of arrival delays {0, T/3, T-1ms} to the chunks (more than 7 chunks: uniform / one / two delayed chunks), then stall or end of stream, judged by a byte-walking timing model: the stalled call returns the timeout error not later than T after it began, with the counts that had arrived, a call whose bytes arrive within less than T delivers. Cross family (ReadDelimitedMessage): histories over 2-3 independent scripted peers read in sequence - a peer either delivers its whole frame or stalls after any cut into the timeout and answers the abandoned Read later (rest of its frame or junk) at every chunk boundary of a later call - and pairs of calls running at the same time under every interleaving of chunk arrivals; oracle per stream, independent of the others: a completely delivered message is read back exactly as written and still reads so at the end of the history, a stalled call returns the timeout error within the period carrying its own counts. Unit c09-peers: the request loop of referenceclient.Run / RunInReferenceMode (binary and -json, default parallelism and -p 1) is fed 1-3 requests (empty / short / 700-byte test name; real encoders and compact JSON) cut at every byte (long streams: around every boundary, prefix and multiple of 512) in every composition up to 12 (16) bytes, beyond that <=3 chunks, 1-byte reads and every grouping of whole messages, ended by EOF, EOF with the last data or left open: exactly one (error-result) response per completely delivered request - already while stdin is open -, Run returns nil iff the input ends at a message boundary; referenceserver.Run / RunInReferenceMode reading its single ServerCompatRequest under the same chunkings: one ServerCompatResponse with host and port for a complete request (also with stdin left open), failure without response for a truncated one.",
+        "text": "For every sequence of 1-3 small messages written by the real writers (WriteDelimitedMessage, binary and JSON stream encoders; plus hand-written compact JSON), every number of delivered bytes, every composition of those bytes into Read answers (complete up to the stated length, <=3 chunks + all-1-byte beyond) and every ending (EOF, EOF together with the last data, I/O error, I/O error with the last data, stall) is fed to ReadDelimitedMessage and to both StreamDecoders; the results are compared with a reference parser of the whole buffer: same messages in order, io.EOF at a boundary, unexpected-end class error inside a prefix/body (JSON: any non-EOF error), never a message that was not completely delivered; stall => timeout error not later than the virtual timeout carrying the scripted k/n counts; prefixes declaring limit (accepted), limit+1, 2^16, 64 MiB, 2^31-1, 2^31, 2^32-1 against limits 0/2/5/1024 under all 8 prefix chunkings => rejected without a body-sized buffer (largest Read buffer after the prefix, TotalAlloc delta); writers failing at every Write index must report the failure unless the message is already completely accepted. Timed family (ReadDelimitedMessage): streams of one message (all letters) and two (sizes 0/2/5, thorough all), every number of delivered bytes, every composition of up to 7 (thorough 9) delivered bytes (beyond: <=3 chunks + all-1-byte), every assignment of arrival delays {0, T/3, T-1ms} to the chunks (more than 7 chunks: uniform / one / two delayed chunks), then stall or end of stream, judged by a byte-walking timing model: the stalled call returns the timeout error not later than T after it began, with the counts that had arrived, a call whose bytes arrive within less than T delivers. Cross family (ReadDelimitedMessage): histories over 2-3 independent scripted peers read in sequence - a peer either delivers its whole frame or stalls after any cut into the timeout and answers the abandoned Read later (rest of its frame or junk) at every chunk boundary of a later call - and pairs of calls running at the same time under every interleaving of chunk arrivals; oracle per stream, independent of the others: a completely delivered message is read back exactly as written and still reads so at the end of the history, a stalled call returns the timeout error within the period carrying its own counts. Big family (same three readers, oracle of the read family): one message of a size around every power of two from 2^10 to 2^21 (+-1, thorough also exact; binary size resp. JSON text length, i.e. below and above 1 MiB and 2 MiB) between small messages with white space of every kind inside their strings, delivered so that one Read-answer window ends at every offset c = 0..64 (thorough ..160) behind the large message (lump [E+c, rest]; for k<=16 / thorough k<=18 also tail [E-7, 7+c, rest] and the stream ending at E+c), plus one piece and fixed 4093/65537-byte reads: every message is read back exactly as written, a clean end is io.EOF, an end inside the following message is an error. Unit c09-peers: the request loop of referenceclient.Run / RunInReferenceMode (binary and -json, default parallelism and -p 1) is fed 1-3 requests (empty / short / 700-byte test name; real encoders and compact JSON) cut at every byte (long streams: around every boundary, prefix and multiple of 512) in every composition up to 12 (16) bytes, beyond that <=3 chunks, 1-byte reads and every grouping of whole messages, ended by EOF, EOF with the last data or left open: exactly one (error-result) response per completely delivered request - already while stdin is open -, Run returns nil iff the input ends at a message boundary; referenceserver.Run / RunInReferenceMode reading its single ServerCompatRequest under the same chunkings: one ServerCompatResponse with host and port for a complete request (also with stdin left open), failure without response for a truncated one.",
         "note": "Bounds as listed in the assumptions; reference parser and protobuf runtime are trusted; peer-side decoders have no limit/timeout parameter and are exempt from those clauses.",
         "design_ref": "DESIGN.md §2.2, §4 C09",
     },
     "units": [
         {
             "name": "c09-enum", "pkg": PKG,
-            "harness": ["internal/c09_test.go"],
+            "harness": ["internal/c09_test.go", "internal/c09_big_test.go"],
             "test": "^TestVerifC09$",
             "shards": {"quick": 16, "thorough": 16},
             "budget_s": {"quick": 45, "thorough": 500},
